@@ -4,7 +4,10 @@
 package c03
 
 import (
+	metav1 "k8s.io/apimachinery/pkg/apis/meta/v1"
+
 	"fmt"
+	corev1alpha1 "package-operator.run/apis/core/v1alpha1"
 	"strings"
 
 	"package-operator.run/internal/packages/zzverif/checks"
@@ -19,12 +22,23 @@ func system(n int, mask uint, classes []string, pauses int, drifts int, celProbe
 	if len(celProbes) > 0 && celProbes[0] {
 		probes = world.CELProbes()
 	}
+	sliced := len(celProbes) > 1 && celProbes[1]
 	cfg := osw.B1(n, mask)
 	return &world.System{
 		Name: fmt.Sprintf("B1 phases=%d delegated=%03b pauses=%d drifts=%d", n, mask, pauses, drifts),
 		Init: func() *world.World {
 			w := osw.NewWorld()
-			w.MustCreate(world.NewObjectSet("r1", osw.PhaseSpecs(cfg, 1), probes))
+			ps := osw.PhaseSpecs(cfg, 1)
+			if sliced {
+				// the phases' objects live in ObjectSlices; a lagging cache may hide one from a pass
+				for i := range ps {
+					name := fmt.Sprintf("r1-slice-%d", i)
+					w.MustCreate(&corev1alpha1.ObjectSlice{ObjectMeta: metav1.ObjectMeta{Name: name, Namespace: world.NS}, Objects: ps[i].Objects})
+					ps[i].Slices, ps[i].Objects = []string{name}, nil
+				}
+				w.Budget["stale"] = 1
+			}
+			w.MustCreate(world.NewObjectSet("r1", ps, probes))
 			w.Budget["user-pause"] = pauses
 			w.Budget["drift"] = drifts
 			return w
@@ -44,6 +58,17 @@ func system(n int, mask uint, classes []string, pauses int, drifts int, celProbe
 						_ = w.Edit(k, func(c map[string]any) { c["spec"].(map[string]any)["x"] = int64(9) })
 						return nil
 					}})
+				}
+			}
+			if w.Budget["stale"] > 0 {
+				for _, k := range w.S.SortedKeys() {
+					if k.Kind == "ObjectSlice" {
+						k := k
+						evs = append(evs, world.Event{Name: "reconcile-stale:os:r1 (cache misses slice " + k.Name + ")", Apply: func(w *world.World) *world.Pass {
+							w.Budget["stale"]--
+							return w.Reconcile(world.CtrlObjectSet, osw.NN("r1"), &world.Plan{HideInList: []kmodel.Key{k}})
+						}})
+					}
 				}
 			}
 			return append(evs, osw.PauseEvents(w, "r1")...)
@@ -70,7 +95,7 @@ func Check(before *world.World, _ world.Event, pass *world.Pass, after *world.Wo
 	if osObj == nil {
 		return nil
 	}
-	phases := osw.SpecPhases(osObj.Content, osKey.Namespace)
+	phases := osw.SpecPhasesIn(before.S, osObj.Content, osKey.Namespace) // incl. the content of referenced ObjectSlices
 	v := osw.View{Before: before.S, Pass: pass}
 	probe := osw.ProbeFor(osObj.Content)
 	var out []world.Finding
@@ -179,6 +204,7 @@ type shape struct {
 	pauses  int
 	drifts  int
 	cel     bool // probes are a CEL rule with an empty failure message
+	sliced  bool // the phases' objects live in ObjectSlices, a lagging cache may hide one
 }
 
 var (
@@ -193,6 +219,7 @@ func shapes(quick bool) []shape {
 			{n: 3, mask: 0, classes: three, pauses: 0}, {n: 3, mask: 0b010, classes: two, pauses: 0}, {n: 2, mask: 1, classes: two, pauses: 2},
 			{n: 2, mask: 0, classes: two, drifts: 1}, {n: 2, mask: 1, classes: []string{"ready"}, drifts: 1},
 			{n: 2, mask: 0, classes: two, cel: true}, {n: 2, mask: 1, classes: two, cel: true},
+			{n: 2, mask: 0, classes: two, sliced: true},
 		}
 	}
 	var out []shape
@@ -212,22 +239,23 @@ func shapes(quick bool) []shape {
 		out = append(out, shape{n: 2, mask: m, classes: two, cel: true})
 	}
 	out = append(out, shape{n: 3, mask: 0b010, classes: two, cel: true})
+	out = append(out, shape{n: 2, mask: 0, classes: three, sliced: true}, shape{n: 3, mask: 0, classes: two, sliced: true}, shape{n: 2, mask: 0b10, classes: two, sliced: true})
 	return out
 }
 
 func run(o checks.Opts) *report.Report {
 	rep := report.New("C03", "bfs")
-	rep.Rule = "explicit-state BFS to closure: events = reconcile(ObjectSet), reconcile(each ObjectSetPhase), workload controller setting any existing object's status to a class of the system's alphabet (none/ready/not-ready/stale-observedGeneration), a third party editing a managed object's spec (so that PKO's own revert bumps the generation under a status that was current); one system per phase layout (2-3 phases, local/delegated mask), status alphabet and probe set (condition / fieldsEqual probes, or a CEL rule with an empty failure message); monitor on every request of every ObjectSet pass"
+	rep.Rule = "explicit-state BFS to closure: events = reconcile(ObjectSet), reconcile(each ObjectSetPhase), workload controller setting any existing object's status to a class of the system's alphabet (none/ready/not-ready/stale-observedGeneration), a third party editing a managed object's spec (so that PKO's own revert bumps the generation under a status that was current); one system per phase layout (2-3 phases, local/delegated mask), status alphabet, probe set and encoding (objects inline, or in ObjectSlices one of which a lagging cache may hide from a pass) (condition / fieldsEqual probes, or a CEL rule with an empty failure message); monitor on every request of every ObjectSet pass"
 	ss := shapes(o.Quick())
 	rep.Bounds["systems"] = len(ss)
 	for i, s := range ss {
 		if o.Shards > 1 && i%o.Shards != o.Shard {
 			continue
 		}
-		sys := system(s.n, s.mask, s.classes, s.pauses, s.drifts, s.cel)
-		sys.Name += fmt.Sprintf(" statuses=%d celProbes=%v", len(s.classes), s.cel)
+		sys := system(s.n, s.mask, s.classes, s.pauses, s.drifts, s.cel, s.sliced)
+		sys.Name += fmt.Sprintf(" statuses=%d celProbes=%v sliced=%v", len(s.classes), s.cel, s.sliced)
 		sys.MaxStates = 400000
-		osw.RunBFS(rep, sys, map[string]any{"n": s.n, "mask": s.mask, "classes": s.classes, "pauses": s.pauses, "drifts": s.drifts, "cel": s.cel})
+		osw.RunBFS(rep, sys, map[string]any{"n": s.n, "mask": s.mask, "classes": s.classes, "pauses": s.pauses, "drifts": s.drifts, "cel": s.cel, "sliced": s.sliced})
 		rep.Samples = append(rep.Samples, map[string]any{"system": sys.Name, "example_path": []string{"reconcile:os:r1", "workload:Widget/a=ready", "reconcile:os:r1", "workload:Widget/a=notready", "reconcile:os:r1"}})
 	}
 	return rep
@@ -245,7 +273,8 @@ func replay(v report.Violation) string {
 	pauses, _ := v.Params["pauses"].(float64)
 	drifts, _ := v.Params["drifts"].(float64)
 	cel, _ := v.Params["cel"].(bool)
-	return osw.ReplayBFS(system(int(n), uint(mask), classes, int(pauses), int(drifts), cel), v)
+	sliced, _ := v.Params["sliced"].(bool)
+	return osw.ReplayBFS(system(int(n), uint(mask), classes, int(pauses), int(drifts), cel, sliced), v)
 }
 
 func init() {
@@ -258,9 +287,9 @@ func init() {
 		},
 		Subs: []*checks.Sub{{Name: "bfs", Shards: func(t string) int {
 			if t == "thorough" {
-				return 33
+				return 36
 			}
-			return 11
+			return 12
 		}, Run: run, Replay: replay, Parallel: true},
 			{Name: "long-lived", Shards: func(t string) int {
 				if t == "thorough" {
